@@ -413,7 +413,7 @@ def parser_verdicts(doc, n_events):
         return seen + ['err:' + type(ex).__name__] + [None] * (n_events - len(seen) - 1)
 
 
-def writer_verdict(o, ev, rep):
+def writer_verdict(o, ev, rep, sort=False):
     from edxml import EDXMLWriter
     from edxml.error import EDXMLEventValidationError
     try:
@@ -424,7 +424,10 @@ def writer_verdict(o, ev, rep):
         buf = io.BytesIO()
         w = EDXMLWriter(buf)
         w.add_ontology(o)
-        w.add_event(e)
+        if sort:
+            w.add_event(e, sort=True)      # the less used way: components sorted into normal form order
+        else:
+            w.add_event(e)
         w.close()
         return True
     except EDXMLEventValidationError:
@@ -453,6 +456,7 @@ def point_verdicts(o, ev, points=None):
         except Exception as ex:
             out[rep + ':event'] = 'err:' + type(ex).__name__
         out[rep + ':writer'] = writer_verdict(o, ev, rep)
+        out[rep + ':writer-sorted'] = writer_verdict(o, ev, rep, sort=True)
     try:
         out['parser'] = parser_verdicts(document([('ont', o), ('event', ev)]), 1)[0]
     except Exception as ex:
